@@ -15,6 +15,7 @@ import (
 	"github.com/gagliardetto/solana-go"
 	"github.com/ipfs/go-cid"
 	carv1 "github.com/ipld/go-car"
+	carv2 "github.com/ipld/go-car/v2"
 	"github.com/rpcpool/yellowstone-faithful/blocktimeindex"
 	"github.com/rpcpool/yellowstone-faithful/bucketteer"
 	"github.com/rpcpool/yellowstone-faithful/compactindexsized"
@@ -47,6 +48,10 @@ type c01Obj struct {
 	blocktime int64
 	sig       solana.Signature
 }
+
+// c01AfterIndexing is set by c01_verify.go (C01.verify, C01.progress): runs the --verify pass;
+// true = the obligation ends there.
+var c01AfterIndexing func(ctx context.Context, carPath string, paths *IndexPaths, numTotal uint64) bool
 
 var (
 	c01Objs       []c01Obj
@@ -197,6 +202,15 @@ func c01Model_bucketteerSeal(w *bucketteer.Writer, meta indexmeta.Meta) (int64, 
 }
 func c01Model_bucketteerClose(w *bucketteer.Writer) error { return nil }
 
+// --- carv2 reader of a local CARv1 file (cut: mmap + internal offset reader): DataReader gives an
+// independent read/seek/readat handle on the file's bytes, positioned at its start
+var c01CarPath string
+
+func c01Model_carv2DataReader(r *carv2.Reader) (carv2.SectionReader, error) {
+	verifAssert(r != nil && r.Version == 1, "C01.e2e: DataReader on a reader the harness did not create")
+	return os.Open(c01CarPath)
+}
+
 // --- block-time file codec (cut; decided by C01.blocktime.file): the server loads the index that
 // was written
 var c01BtWritten *blocktimeindex.Index
@@ -222,7 +236,6 @@ var (
 )
 
 func VerifC01E2E() {
-	cacheKeeps := verifChoice("cacheKeeps", 2) == 1
 	nl := verifParam("nlens", len(c01E2ELens))
 	// the CAR: header, then transaction, entry, block [, transaction, block], epoch (root last)
 	kinds := []iplddecoders.Kind{iplddecoders.KindTransaction, iplddecoders.KindEntry, iplddecoders.KindBlock}
@@ -230,11 +243,14 @@ func VerifC01E2E() {
 		kinds = append(kinds, iplddecoders.KindTransaction, iplddecoders.KindBlock)
 	}
 	extra := verifParam("extra", 0) // further entries of assorted sizes (longer running offset, more buffer refills)
+	extraKinds := []iplddecoders.Kind{iplddecoders.KindEntry, iplddecoders.KindRewards, iplddecoders.KindDataFrame, iplddecoders.KindSubset}
 	for i := 0; i < extra; i++ {
-		kinds = append(kinds, iplddecoders.KindEntry)
+		kinds = append(kinds, extraKinds[i%len(extraKinds)])
 	}
 	kinds = append(kinds, iplddecoders.KindEpoch)
-	c01HeaderBody = verifBytes("header", c01E2EHdrLens[verifChoice("hdrlen", verifParam("nhdrs", len(c01E2EHdrLens)))])
+	hc := verifChoice("hdrlen", verifParam("nhdrs", len(c01E2EHdrLens)))
+	c01HeaderBody = verifBytes("header", c01E2EHdrLens[hc])
+	c01E2EEpoch = []uint64{700, 0}[hc%2] // epoch 0 (slot 0 is a block) goes with every second header length
 	var lb [binary.MaxVarintLen64]byte
 	file := append([]byte{}, lb[:binary.PutUvarint(lb[:], uint64(len(c01HeaderBody)))]...)
 	file = append(file, c01HeaderBody...)
@@ -245,7 +261,7 @@ func VerifC01E2E() {
 		dl := 70
 		if i < 2 { // the first transaction and the entry sweep the length boundaries
 			dl = c01E2ELens[verifChoice("datalen", nl)]
-		} else if k == iplddecoders.KindEntry {
+		} else if k != iplddecoders.KindTransaction && k != iplddecoders.KindBlock && k != iplddecoders.KindEpoch {
 			dl = 40 + 37*(i%11) + i
 		}
 		o.payload = append([]byte{0x86, byte(k), byte(i)}, verifBytes("payload", dl-3)...)
@@ -255,8 +271,16 @@ func VerifC01E2E() {
 			o.blocktime = verifI64("blocktime")
 			nb++
 		case iplddecoders.KindTransaction:
-			o.payload[3] = 1 // compact-u16: one signature
-			copy(o.sig[:], o.payload[4:68])
+			// compact-u16 signature count, then the signatures: the first transaction has any count
+			// in 1..127 (one byte), later ones 129 (two bytes)
+			if i == 0 {
+				verifAssume(o.payload[3] >= 1)
+				verifAssume(o.payload[3] <= 0x7f)
+				copy(o.sig[:], o.payload[4:68])
+			} else {
+				o.payload[3], o.payload[4] = 0x81, 0x01
+				copy(o.sig[:], o.payload[5:69])
+			}
 		}
 		sec := c01Section(c01CidBytes(i), o.payload)
 		o.offset, o.total = uint64(len(file)), uint64(len(sec))
@@ -286,7 +310,15 @@ func VerifC01E2E() {
 	verifAssert(numTotal == uint64(len(c01Objs)), "C01.e2e: wrong item count")
 	verifAssert(c01SigExistsSealed && c01BtWritten != nil, "C01.e2e: sig_exists / block-time index not written")
 
+	if c01AfterIndexing != nil && c01AfterIndexing(ctx, carPath, paths, numTotal) {
+		return
+	}
+
 	// the server opens what index all reported
+	cacheKeeps := verifParam("cache", -1) == 1
+	if verifParam("cache", -1) < 0 {
+		cacheKeeps = verifChoice("cacheKeeps", 2) == 1
+	}
 	cidIdx, err := OpenIndex_CidToOffset(paths.CidToOffsetAndSize)
 	verifAssert(err == nil, "C01.e2e: the cid_to_offset_and_size index that was reported does not open")
 	slotIdx, err := OpenIndex_SlotToCid(paths.SlotToCid)
@@ -297,15 +329,25 @@ func VerifC01E2E() {
 		"C01.e2e: index metadata does not carry the CAR's epoch / root")
 	car, err := os.Open(carPath)
 	verifAssert(err == nil, "C01.e2e: open")
+	c01CarPath = carPath
 	ep := &Epoch{
 		epoch:                   c01E2EEpoch,
 		config:                  &Config{},
-		remoteCarReader:         car,
 		cidToOffsetAndSizeIndex: cidIdx,
 		slotToCidIndex:          slotIdx,
 		sigToCidIndex:           sigIdx,
 		blocktimeindex:          c01BtWritten,
 		allCache:                c01NewCache(),
+	}
+	// the CAR is served through a ReaderAt (remote/split files) or from a local file (carv2 reader)
+	carFrom := verifParam("carFrom", -1)
+	if carFrom < 0 {
+		carFrom = verifChoice("carFrom", 2)
+	}
+	if carFrom == 0 {
+		ep.remoteCarReader = car
+	} else {
+		ep.localCarReader = &carv2.Reader{Version: 1}
 	}
 	nt := 0
 	for round := 0; round < 2; round++ { // second round: answers may come from the cache
@@ -320,15 +362,21 @@ func VerifC01E2E() {
 			got, err := ep.GetNodeByCid(ctx, o.cid)
 			verifAssert(err == nil, "C01.e2e: an object of the CAR cannot be fetched by its CID")
 			verifAssert(bytes.Equal(got, o.payload), "C01.e2e: the bytes fetched by CID are not the object's bytes")
+			raw, err := ep.ReadAtFromCar(ctx, oas.Offset, oas.Size)
+			verifAssert(err == nil && uint64(len(raw)) == o.total && bytes.Equal(raw[o.total-uint64(len(o.payload)):], o.payload), "C01.e2e: ReadAtFromCar at the recorded offset/size is not the object's section")
 			switch o.kind {
 			case iplddecoders.KindBlock:
 				c, err := ep.FindCidFromSlot(ctx, o.slot)
 				verifAssert(err == nil && c.Equals(o.cid), "C01.e2e: a block's slot does not resolve to the block's CID")
+				blk, c, err := ep.GetBlock(ctx, o.slot)
+				verifAssert(err == nil && blk != nil && c.Equals(o.cid) && uint64(blk.Slot) == o.slot, "C01.e2e: GetBlock(slot) does not return the block of that slot")
 				bt, err := ep.GetBlocktime(o.slot)
 				verifAssert(err == nil && bt == o.blocktime, "C01.e2e: a block's slot does not resolve to its recorded block time")
 			case iplddecoders.KindTransaction:
 				c, err := ep.FindCidFromSignature(ctx, o.sig)
 				verifAssert(err == nil && c.Equals(o.cid), "C01.e2e: a transaction's first signature does not resolve to the transaction's CID")
+				tx, c, err := ep.GetTransaction(ctx, o.sig)
+				verifAssert(err == nil && tx != nil && c.Equals(o.cid), "C01.e2e: GetTransaction(first signature) does not return the transaction")
 				if round == 0 {
 					verifAssert(nt < len(c01SigExistsSeen) && c01SigExistsSeen[nt] == o.sig, "C01.e2e: a transaction's first signature was not added to sig_exists")
 					nt++
